@@ -616,7 +616,18 @@ func init() {
 	// C15: detection latency at the boundary configuration timeout == interval. The peer answers three heartbeats (each after half an
 	// interval, so that the healthy phase tolerates scheduling jitter) and then goes silent: the connection must be recycled within
 	// interval + timeout (+ slack) of the last answer.
-	register(&scenario{Name: "c15/stops-after-3-timeout-eq-interval", Props: []string{"C15"}, Quick: true, Run: func(t *T) {
+	for _, timeoutFirst := range []bool{false, true} {
+		timeoutFirst := timeoutFirst
+		nm := "c15/stops-after-3-timeout-eq-interval"
+		if timeoutFirst {
+			nm += "-option-order"
+		}
+		registerStopsAfter3(nm, timeoutFirst)
+	}
+}
+
+func registerStopsAfter3(name string, timeoutFirst bool) {
+	register(&scenario{Name: name, Props: []string{"C15"}, Quick: true, Run: func(t *T) {
 		p := newPeer(t, t.Transport, t.Version)
 		defer p.Shutdown()
 		var mu sync.Mutex
@@ -655,6 +666,7 @@ func init() {
 		}
 		cfg := defaultCfg()
 		cfg.KeepaliveU, cfg.KeepaliveTimeoutU = 4, 4
+		cfg.TimeoutOptionFirst = timeoutFirst
 		cl, err := t.NewClient(p, cfg)
 		if err != nil {
 			t.Check("setup", false, "dial: %v", err)
@@ -684,6 +696,9 @@ func init() {
 		t.Check("timing:detects_dead", d <= t.U(9), "interval 4 units, timeout 4 units: the silent peer was detected %.1f units after its last answer (bound: interval + timeout = 8, + 1 slack)", float64(d)/float64(t.U(1)))
 	}})
 
+}
+
+func init() {
 	// C15 / C08: a keepalive verdict about the OLD connection must not recycle the NEW one. The keepalive goroutine is parked right after
 	// its check declared connection 1 dead; meanwhile connection 1 is lost the ordinary way and the client recovers onto a healthy
 	// connection 2; then the keepalive goroutine continues with its stale verdict.
